@@ -17,7 +17,7 @@ F2 (known defect, exhibited below): `$` also matches before a trailing "\n"; `\d
 
 Inventory (six URI patterns; the same scheme for `_CUSTOM_ATTRIBUTE` and the four realm patterns):
   UriEquiv strict ae ale           full statement `∀ s, check … s = Spec.ok … s` (a `def`; false today)
-  uri_equiv_partial                PARTIAL: equality for texts with no trailing "\n" (only while `$`) and no non-ASCII
+  uri_equiv_guarded                PARTIAL: equality for texts with no trailing "\n" (only while `$`) and no non-ASCII
                                    `\d` digit (only while the class mentions `\d`)
   uri_check_exact                  exact characterisation incl. the `$` quirk (digit hypothesis only)
   uri_complete                     FULL, no hypotheses: Spec.ok → check (valid URIs are never rejected)
@@ -663,7 +663,7 @@ def UriEquiv (strict ae ale : Bool) : Prop :=
 /-- **partial**: the generated pattern equals the intended grammar on every input that does not hit F2:
 no trailing "\n" (needed only while the anchor is `$`) and no non-ASCII decimal digit (needed only while the
 class mentions `\d`; never needed in loose mode). -/
-theorem uri_equiv_partial (strict ae ale : Bool) (s : List Char)
+theorem uri_equiv_guarded (strict ae ale : Bool) (s : List Char)
     (hnl : (pat strict ae ale).anchor = .dollar → s.getLast? ≠ some '\n')
     (hdg : (uriClass strict ae ale).usesDigit = true → ∀ c ∈ s, isDigit c = true → c.toNat < 128) :
     check strict ae ale s = Spec.ok strict ae ale s := by
@@ -672,10 +672,10 @@ theorem uri_equiv_partial (strict ae ale : Bool) (s : List Char)
   exact body_matchesFull_eq_spec strict ae ale s (fun c hc hu hdc => hdg hu c hc hdc)
 
 example : check true false false (chs! "com.example.topic_1") = Spec.ok true false false (chs! "com.example.topic_1") :=
-  uri_equiv_partial true false false _ (by decide) (by decide)
+  uri_equiv_guarded true false false _ (by decide) (by decide)
 
 example : check false true false (chs! "com..é٣.x") = Spec.ok false true false (chs! "com..é٣.x") :=
-  uri_equiv_partial false true false _ (by decide) (by intro h; revert h; decide)
+  uri_equiv_guarded false true false _ (by decide) (by intro h; revert h; decide)
 
 /-- exact characterisation including the `$` quirk: with `$`, a text is accepted iff it, or it minus one trailing
 "\n", is in the intended grammar (still up to non-ASCII `\d` digits). -/
@@ -757,7 +757,7 @@ theorem uri_sound_up_to_f2 (strict ae ale : Bool) (s : List Char) (h : check str
       ((uriClass strict ae ale).usesDigit = true ∧ ∃ c ∈ s, isDigit c = true ∧ 128 ≤ c.toNat) := by
   by_cases hnl : (pat strict ae ale).anchor = .dollar → s.getLast? ≠ some '\n'
   · by_cases hdg : (uriClass strict ae ale).usesDigit = true → ∀ c ∈ s, isDigit c = true → c.toNat < 128
-    · rw [uri_equiv_partial strict ae ale s hnl hdg] at h
+    · rw [uri_equiv_guarded strict ae ale s hnl hdg] at h
       exact .inl h
     · refine .inr (.inr ?_)
       rw [Classical.not_imp] at hdg
@@ -780,7 +780,7 @@ example : check false false true (chs! "com.myapp.") = true := uri_complete fals
 theorem uriEquiv_of_fixed (strict ae ale : Bool) (ha : (pat strict ae ale).anchor = .absEnd)
     (hu : (uriClass strict ae ale).usesDigit = false) : UriEquiv strict ae ale := by
   intro s
-  apply uri_equiv_partial
+  apply uri_equiv_guarded
   · intro h; rw [ha] at h; cases h
   · intro h; rw [hu] at h; cases h
 
@@ -931,7 +931,7 @@ theorem caRest_ok : classOk caRest strictChar = true := by decide +kernel
 def CustomAttrEquiv : Prop := ∀ s : List Char, customAttr s = CustomAttr.Spec.ok s
 
 /-- **partial**: equal on every input without trailing "\n" (while `$`) and without non-ASCII digit (while `\d`) -/
-theorem custom_attr_equiv_partial (s : List Char)
+theorem custom_attr_equiv_guarded (s : List Char)
     (hnl : _CUSTOM_ATTRIBUTE.anchor = .dollar → s.getLast? ≠ some '\n')
     (hdg : caRest.usesDigit = true → ∀ c ∈ s, isDigit c = true → c.toNat < 128) :
     customAttr s = CustomAttr.Spec.ok s := by
@@ -945,12 +945,12 @@ theorem custom_attr_equiv_partial (s : List Char)
     (contains_eq_spec caRest_ok strictChar_high hdg)
 
 example : customAttr (chs! "x_my_attr1") = CustomAttr.Spec.ok (chs! "x_my_attr1") :=
-  custom_attr_equiv_partial _ (by decide) (by decide)
+  custom_attr_equiv_guarded _ (by decide) (by decide)
 
 theorem customAttrEquiv_of_fixed (ha : _CUSTOM_ATTRIBUTE.anchor = .absEnd) (hu : caRest.usesDigit = false) :
     CustomAttrEquiv := by
   intro s
-  apply custom_attr_equiv_partial
+  apply custom_attr_equiv_guarded
   · intro h; rw [ha] at h; cases h
   · intro h; rw [hu] at h; cases h
 
@@ -1005,7 +1005,7 @@ theorem nameRest_ok : classOk nameRest realmChar = true := by decide +kernel
 /-- **full statement** (FALSE today: "abc\n", "ab٣") -/
 def RealmNameEquiv : Prop := ∀ s : List Char, realmName s = Realm.Spec.name s
 
-theorem realm_name_equiv_partial (s : List Char)
+theorem realm_name_equiv_guarded (s : List Char)
     (hnl : _URI_PAT_REALM_NAME.anchor = .dollar → s.getLast? ≠ some '\n')
     (hdg : nameRest.usesDigit = true → ∀ c ∈ s, isDigit c = true → c.toNat < 128) :
     realmName s = Realm.Spec.name s := by
@@ -1019,12 +1019,12 @@ theorem realm_name_equiv_partial (s : List Char)
     (contains_eq_spec nameRest_ok realmChar_high hdg)
 
 example : realmName (chs! "realm-1.example@x") = Realm.Spec.name (chs! "realm-1.example@x") :=
-  realm_name_equiv_partial _ (by decide) (by decide)
+  realm_name_equiv_guarded _ (by decide) (by decide)
 
 theorem realmNameEquiv_of_fixed (ha : _URI_PAT_REALM_NAME.anchor = .absEnd) (hu : nameRest.usesDigit = false) :
     RealmNameEquiv := by
   intro s
-  apply realm_name_equiv_partial
+  apply realm_name_equiv_guarded
   · intro h; rw [ha] at h; cases h
   · intro h; rw [hu] at h; cases h
 
@@ -1064,7 +1064,7 @@ theorem ethHex_ok : classOk ethHex hexChar = true := by decide +kernel
 /-- **full statement** (FALSE today) -/
 def RealmEthEquiv : Prop := ∀ s : List Char, realmEth s = Realm.Spec.eth s
 
-theorem realm_eth_equiv_partial (s : List Char)
+theorem realm_eth_equiv_guarded (s : List Char)
     (hnl : _URI_PAT_REALM_NAME_ETH.anchor = .dollar → s.getLast? ≠ some '\n')
     (hdg : ethHex.usesDigit = true → ∀ c ∈ s, isDigit c = true → c.toNat < 128) :
     realmEth s = Realm.Spec.eth s := by
@@ -1077,12 +1077,12 @@ theorem realm_eth_equiv_partial (s : List Char)
 
 example : realmEth (chs! "0x52908400098527886E0F7030069857D2E4169EE7")
     = Realm.Spec.eth (chs! "0x52908400098527886E0F7030069857D2E4169EE7") :=
-  realm_eth_equiv_partial _ (by decide) (by decide)
+  realm_eth_equiv_guarded _ (by decide) (by decide)
 
 theorem realmEthEquiv_of_fixed (ha : _URI_PAT_REALM_NAME_ETH.anchor = .absEnd) (hu : ethHex.usesDigit = false) :
     RealmEthEquiv := by
   intro s
-  apply realm_eth_equiv_partial
+  apply realm_eth_equiv_guarded
   · intro h; rw [ha] at h; cases h
   · intro h; rw [hu] at h; cases h
 
@@ -1160,7 +1160,7 @@ theorem ensRevClass_ok : classOk ensRevClass ensChar = true := by decide +kernel
 def RealmEnsEquiv : Prop := ∀ s : List Char, realmEns s = Realm.Spec.ens s
 def RealmEnsReverseEquiv : Prop := ∀ s : List Char, realmEnsReverse s = Realm.Spec.ensReverse s
 
-theorem realm_ens_equiv_partial (s : List Char)
+theorem realm_ens_equiv_guarded (s : List Char)
     (hnl : _URI_PAT_REALM_NAME_ENS.anchor = .dollar → s.getLast? ≠ some '\n')
     (hdg : ensClass.usesDigit = true → ∀ c ∈ s, isDigit c = true → c.toNat < 128) :
     realmEns s = Realm.Spec.ens s := by
@@ -1171,7 +1171,7 @@ theorem realm_ens_equiv_partial (s : List Char)
   rw [h1]
   exact ensWith_congr (contains_eq_spec ensClass_ok ensChar_high hdg)
 
-theorem realm_ens_reverse_equiv_partial (s : List Char)
+theorem realm_ens_reverse_equiv_guarded (s : List Char)
     (hnl : _URI_PAT_REALM_NAME_ENS_REVERSE.anchor = .dollar → s.getLast? ≠ some '\n')
     (hdg : ensRevClass.usesDigit = true → ∀ c ∈ s, isDigit c = true → c.toNat < 128) :
     realmEnsReverse s = Realm.Spec.ensReverse s := by
@@ -1184,22 +1184,22 @@ theorem realm_ens_reverse_equiv_partial (s : List Char)
   exact ensReverseWith_congr (contains_eq_spec ensRevClass_ok ensChar_high hdg)
 
 example : realmEns (chs! "my-realm_1.eth") = Realm.Spec.ens (chs! "my-realm_1.eth") :=
-  realm_ens_equiv_partial _ (by decide) (by decide)
+  realm_ens_equiv_guarded _ (by decide) (by decide)
 
 example : realmEnsReverse (chs! "eth.my-realm_1") = Realm.Spec.ensReverse (chs! "eth.my-realm_1") :=
-  realm_ens_reverse_equiv_partial _ (by decide) (by decide)
+  realm_ens_reverse_equiv_guarded _ (by decide) (by decide)
 
 theorem realmEnsEquiv_of_fixed (ha : _URI_PAT_REALM_NAME_ENS.anchor = .absEnd) (hu : ensClass.usesDigit = false) :
     RealmEnsEquiv := by
   intro s
-  apply realm_ens_equiv_partial
+  apply realm_ens_equiv_guarded
   · intro h; rw [ha] at h; cases h
   · intro h; rw [hu] at h; cases h
 
 theorem realmEnsReverseEquiv_of_fixed (ha : _URI_PAT_REALM_NAME_ENS_REVERSE.anchor = .absEnd)
     (hu : ensRevClass.usesDigit = false) : RealmEnsReverseEquiv := by
   intro s
-  apply realm_ens_reverse_equiv_partial
+  apply realm_ens_reverse_equiv_guarded
   · intro h; rw [ha] at h; cases h
   · intro h; rw [hu] at h; cases h
 
@@ -1217,5 +1217,23 @@ theorem f2_realm_ens_reverse_digit_witness : ensRevClass.usesDigit = true →
     realmEnsReverse ['e', 't', 'h', '.', 'a', '٣'] = true ∧
       Realm.Spec.ensReverse ['e', 't', 'h', '.', 'a', '٣'] = false := by
   decide
+
+/-! ### FULL statements (since /repo 8a098028: every pattern ends in `\Z` and uses `0-9`)
+
+The `*_guarded` theorems above hold for any generated pattern of the right shape; their two hypotheses (end anchor `$`
+⇒ no trailing newline, class uses `\d` ⇒ no non-ASCII digit) are now vacuous for the regenerated patterns, which the
+`decide`s below check.  Re-introducing `$` or `\d` in message.py makes exactly these theorems fail to build. -/
+
+/-- **check_or_raise_uri accepts exactly the intended URI grammar**, for every flag triple and every string -/
+theorem uri_equiv (strict ae ale : Bool) : UriEquiv strict ae ale :=
+  uriEquiv_of_fixed strict ae ale
+    (by cases strict <;> cases ae <;> cases ale <;> decide)
+    (by cases strict <;> cases ae <;> cases ale <;> decide)
+
+theorem custom_attr_equiv : CustomAttrEquiv := customAttrEquiv_of_fixed (by decide) (by decide)
+theorem realm_name_equiv : RealmNameEquiv := realmNameEquiv_of_fixed (by decide) (by decide)
+theorem realm_eth_equiv : RealmEthEquiv := realmEthEquiv_of_fixed (by decide) (by decide)
+theorem realm_ens_equiv : RealmEnsEquiv := realmEnsEquiv_of_fixed (by decide) (by decide)
+theorem realm_ens_reverse_equiv : RealmEnsReverseEquiv := realmEnsReverseEquiv_of_fixed (by decide) (by decide)
 
 end Abverif.Uri
